@@ -128,14 +128,15 @@ func (w *world) walk(owner *sg.Mod, kids []*sg.Node, toks []string, i int, incom
 			}
 			return verdict{at: i, kind: "too-short"}
 		}
-		if i+1 < len(toks) {
-			return verdict{at: i + 1, kind: "trailing"}
-		}
+		// the value comes first: a value outside the type is the first offending element also when more tokens follow
 		if !ok {
 			return verdict{unknown: true}
 		}
 		if !sp.Contains(toks[i]) {
 			return verdict{at: i, kind: "bad-value"}
+		}
+		if i+1 < len(toks) {
+			return verdict{at: i + 1, kind: "trailing"}
 		}
 		return verdict{ok: true}
 	}
@@ -337,6 +338,26 @@ func genCase(t *rapid.T) Case {
 		if len(q) > 0 {
 			c.Paths = append(c.Paths, q)
 		}
+		// two things wrong with one path: the earlier one is the one to report.  The second corruption sits behind the
+		// first (directly behind it in half of the cases).
+		if len(p) >= 2 && g.Chance(1, 2, "double") {
+			d := append([]string(nil), p...)
+			first := g.Pick(len(d)-1, "first")
+			second := first + 1
+			if second+1 < len(d) && g.Chance(1, 2, "further") {
+				second += 1 + g.Pick(len(d)-second-1, "second")
+			}
+			bad := []string{"no-such-node", "!!not a value!!", "", " ", "extra"}
+			d[first] = bad[g.Pick(len(bad), "firstbad")]
+			d[second] = bad[g.Pick(len(bad), "secondbad")]
+			if g.Chance(1, 3, "tail") {
+				d = append(d, "extra")
+			}
+			c.Paths = append(c.Paths, d)
+			// a good path with a bad value and more tokens behind it
+			e := append(append([]string(nil), p[:len(p)-1]...), "!!not a value!!", "extra")
+			c.Paths = append(c.Paths, e)
+		}
 	}
 	// choice / case names used as tokens right where the choice sits
 	cps := choicePaths(w)
@@ -490,12 +511,22 @@ func checkCase(c Case) fw.Outcome {
 				}
 				return false
 			}
+			// the element the error is about: the bad-element it names behind its path, else the last element of its path
 			located := false
 			switch v.kind {
-			case "unknown-child", "trailing":
-				located = (ep == pathstr(p[:v.at]) && hasInfo(p[v.at])) || ep == pathstr(p[:v.at+1])
-			case "bad-value":
-				located = ep == pathstr(p[:v.at+1]) || (ep == pathstr(p[:v.at]) && hasInfo(p[v.at]))
+			case "unknown-child", "trailing", "bad-value":
+				for k := 0; k <= len(p); k++ {
+					if ep != pathstr(p[:k]) {
+						continue
+					}
+					e := k - 1
+					if k < len(p) && hasInfo(p[k]) {
+						e = k
+					}
+					if e == v.at {
+						located = true
+					}
+				}
 			case "too-short":
 				located = ep == pathstr(p)
 			}
@@ -522,7 +553,7 @@ func checkCase(c Case) fw.Outcome {
 var paths = fw.Register(&fw.Prop[Case]{
 	ID: "C17", Name: "paths",
 	Rule: "compiled schemas from the module-set generator (presence and non-presence containers, lists with typed keys, leaves of all modelled types incl. empty, leaf-lists, nested choices and cases, groupings, " +
-		"augments) and token paths from a random walk of the harness's own (inlined) model: complete valid paths, every proper prefix, one-token corruptions (unknown name, value outside the type, empty token, token doubled, predecessor repeated, neighbours swapped, token dropped, token valid elsewhere), " +
+		"augments) and token paths from a random walk of the harness's own (inlined) model: complete valid paths, every proper prefix, one-token corruptions (unknown name, value outside the type, empty token, token doubled, predecessor repeated, neighbours swapped, token dropped, token valid elsewhere), two corruptions in one path (the earlier one is the one to report), a bad value with further tokens behind it, " +
 		"over-long paths, choice / case names used as tokens; both values of AllowIncompletePaths; oracle: reference walker over the abstract model with exact value spaces; a rejection must identify the first " +
 		"offending element (error path = valid prefix, offending element = bad-element info or last path element); non-trivial = a path of length >= 3",
 	Gen: genCase, Check: checkCase,
